@@ -141,28 +141,36 @@ pub mod proofs {
 
     // ------------------------------------------------------------------ signal node
     /// a signal node writes successive frames de-interleaved, one buffer length per call, min(CHANNELS, outputs) channels
-    struct Ramp { n: u32 }
+    /// a FINITE ramp: frames n, n+1, .. up to `end`, then exhausted and equilibrium forever
+    struct Ramp { n: u32, end: u32 }
     impl dasp_signal::Signal for Ramp {
         type Frame = [f32; 2];
-        fn next(&mut self) -> [f32; 2] { let k = self.n; self.n += 1; [k as f32, -(k as f32)] }
+        fn next(&mut self) -> [f32; 2] { let k = self.n; self.n += 1; if k < self.end { [k as f32, -(k as f32)] } else { [0.0, 0.0] } }
+        fn is_exhausted(&self) -> bool { self.n >= self.end }
     }
     #[kani::proof] #[kani::unwind(66)] #[kani::solver(kissat)]
     pub fn c16_signal_node() {
         let start: u8 = kani::any();
-        let mut sig = Ramp { n: start as u32 };
+        let len: u8 = kani::any();                       // the signal may end anywhere inside (or after) the block
+        let end = start as u32 + len as u32;
+        let mut sig = Ramp { n: start as u32, end };
         let node: &mut dyn dasp_signal::Signal<Frame = [f32; 2]> = &mut sig;
-        let mut out = [any_buffer(), any_buffer(), any_buffer()];
+        let mut out = [any_buffer(), any_buffer(), any_buffer()];      // arbitrary (stale) contents on entry
         let before2 = out[2].clone();
         node.process(&[], &mut out);
         let i = idx();
-        assert!(same(out[0][i], (start as u32 + i as u32) as f32));
-        assert!(same(out[1][i], -((start as u32 + i as u32) as f32)));
+        let k = start as u32 + i as u32;
+        // a whole buffer length of successive frames is written on every call: equilibrium once the signal has ended
+        assert!(same(out[0][i], if k < end { k as f32 } else { 0.0 }));
+        assert!(same(out[1][i], if k < end { -(k as f32) } else { 0.0 }));
         assert!(same(out[2][i], before2[i]));       // surplus output untouched
+        assert!(sig.n == start as u32 + 64);        // exactly one buffer length of frames pulled
+        kani::cover!(len > 0 && len < 64, "signal ends inside the block");
     }
     #[kani::proof] #[kani::unwind(66)] #[kani::solver(kissat)]
     pub fn c16_t_signal_node_2calls_1out() {
         let start: u8 = kani::any();
-        let mut sig = Ramp { n: start as u32 };
+        let mut sig = Ramp { n: start as u32, end: u32::MAX };
         let node: &mut dyn dasp_signal::Signal<Frame = [f32; 2]> = &mut sig;
         let mut one = [any_buffer()];
         node.process(&[], &mut one);                // fewer outputs than channels
